@@ -182,6 +182,16 @@ func runCheck(o *Options) int {
 		case "func":
 			if o.Prop == "C09" {
 				// the lock sweep checks every lock-touching function, contracted or not
+				if strings.Contains(ct.Key, "$") {
+					// a function literal under contract is a unit of its own (the sweep looks at declared functions)
+					if lf := w.litFunc(ct.PkgName + "." + ct.Key); lf != nil {
+						nContracts++
+						results = append(results, w.verifyFunc(lf, propView(ct, o.Prop), false, o.Prop))
+					} else {
+						missing = append(missing, ct.PkgName+"."+ct.Key)
+					}
+					continue
+				}
 				if w.Funcs[ct.PkgName+"."+ct.Key] == nil {
 					missing = append(missing, ct.PkgName+"."+ct.Key)
 				}
